@@ -334,3 +334,62 @@ Definition qdumped (ops : list qop) : list task :=
   flat_map (fun op => match op with QDump t => [t] | _ => [] end) ops.
 Definition drainer_of (op : qop) : option nat :=
   match op with QDump _ => None | QTake d | QWrite d => Some d end.
+
+(* ---------- Stop while exchanges are still in flight (fix 417df38) ----------
+   The queue now shows the stop mark (nil task).  Repaired code: DumpTo queues only under the
+   lock qmu and only when running && !stopped; Stop takes the same lock, sets stopped, sends
+   the mark and - if a drainer is running - waits until it has written everything queued and
+   has returned (so it is one atomic step here).  Before the fix Stop only sent the mark, and
+   DumpTo queued while running was still 1: behind the mark. *)
+Inductive sop := SDump (t : task) | SDrain | SStart | SStop.
+
+Record sstate := mkS { s_running : bool; s_stopped : bool; s_q : list (option task); s_out : list task }.
+
+Definition tasks_of (q : list (option task)) : list task :=
+  flat_map (fun x => match x with Some t => [t] | None => [] end) q.
+
+Definition sdrain (st : sstate) : sstate :=
+  if s_running st then
+    match s_q st with
+    | Some t :: q => mkS true (s_stopped st) q (s_out st ++ [t])
+    | None :: q => mkS false (s_stopped st) q (s_out st)        (* Start returns *)
+    | [] => st
+    end
+  else st.
+
+Definition sstep (async : bool) (st : sstate) (op : sop) : sstate :=
+  match op with
+  | SDump t =>
+      if async && s_running st && negb (s_stopped st)
+      then mkS (s_running st) (s_stopped st) (s_q st ++ [Some t]) (s_out st)
+      else mkS (s_running st) (s_stopped st) (s_q st) (s_out st ++ [t])
+  | SDrain => sdrain st
+  | SStart => mkS true (s_stopped st) (s_q st) (s_out st)
+  | SStop =>
+      if s_running st then mkS false true [] (s_out st ++ tasks_of (s_q st))
+      else mkS false true (s_q st ++ [None]) (s_out st)
+  end.
+
+Definition sstep_old (async : bool) (st : sstate) (op : sop) : sstate :=
+  match op with
+  | SDump t =>
+      if async && s_running st
+      then mkS (s_running st) (s_stopped st) (s_q st ++ [Some t]) (s_out st)
+      else mkS (s_running st) (s_stopped st) (s_q st) (s_out st ++ [t])
+  | SStop => mkS (s_running st) true (s_q st ++ [None]) (s_out st)
+  | _ => sstep async st op
+  end.
+
+Definition s0 : sstate := mkS false false [] [].
+Definition run_sops (async : bool) (ops : list sop) : sstate := fold_left (sstep async) ops s0.
+Definition run_sops_old (async : bool) (ops : list sop) : sstate := fold_left (sstep_old async) ops s0.
+Definition sdumped (ops : list sop) : list task :=
+  flat_map (fun op => match op with SDump t => [t] | _ => [] end) ops.
+
+(* ---------- the request's own dump buffer across retries ----------
+   Request.do: before every further attempt r.dumpBuffer.Reset() - whether or not the failed
+   attempt had a response.  A buffer is written to and reset. *)
+Inductive bop := BWrite (p : bytes) | BReset.
+Definition bstep (buf : bytes) (op : bop) : bytes :=
+  match op with BWrite p => buf ++ p | BReset => [] end.
+Definition run_bops (ops : list bop) : bytes := fold_left bstep ops [].
